@@ -303,6 +303,23 @@ def run_case(case, cnt=None):
             src = f'.word ^R{case["ch"]}\n'
             want = "ANY"
         o = asm.assemble([("/c15/main.mac", src)])
+        if kind == "rej_code":
+            # the same parsed file compiled a second time (fresh Compiler): the code is as invalid as the first time
+            from pdpy11 import compiler as _c, parser as _p, reports as _r
+            ast = _p.parse("/c15/main.mac", src)
+            verdicts = []
+            for _ in range(2):
+                seen = []
+                try:
+                    with _r.handle_reports(lambda pr, ident, *sp: seen.append(ident)):
+                        _c.Compiler(output_charset="bk").compile_and_link_files([ast])
+                    verdicts.append(("ok", seen))
+                except _r.UnrecoverableError:
+                    verdicts.append(("fail", seen))
+            if cnt is not None:
+                cnt["recompiled_asts"] = cnt.get("recompiled_asts", 0) + 1
+            if [v[0] for v in verdicts] != ["fail", "fail"] or not all("value-out-of-bounds" in v[1] for v in verdicts):
+                viol(f"{src!r}: one parsed file compiled twice gives {verdicts}")
         if want is None:
             exp = b"".join(w.to_bytes(2, "little") for w in _expect_words([1, case["n"]]))
             if o.cls != "ok" or o.code != exp:
